@@ -570,11 +570,21 @@ func sysChild(phase string) {
 	dir := os.Getenv("C19_DIR")
 	crashAt, crashPoint := atoi(m["crash"]), "c19.atomic."+m["at"]
 	writes := 0
+	queued := m["queued"] == "1"
+	blocked := make(chan struct{}, 1)
 	verifhook.Set(func(name, s string, _ []int64) {
 		if name == "c19.atomic.written" {
 			writes++
 		}
-		if phase == "build" && crashAt > 0 && name == crashPoint {
+		if queued && phase == "build" && name == "c19.atomic.before-rename" && strings.Contains(s, "req0.") && strings.HasSuffix(s, ".qpr") {
+			// the long search that occupies the only worker slot: it never gets past its first partial result
+			select {
+			case blocked <- struct{}{}:
+			default:
+			}
+			select {}
+		}
+		if !queued && phase == "build" && crashAt > 0 && name == crashPoint {
 			n := writes
 			if m["at"] == "before-rename" {
 				n = writes + 1
@@ -660,12 +670,35 @@ func sysChild(phase string) {
 	query := queryOf(m)
 	params := processor.SearchParams{AggQ: aggQuery(m["agg"]), HistInterval: atou(m["hi"]), From: seq.MID(atou(m["from"])), To: seq.MID(atou(m["to"])),
 		Limit: math.MaxInt32, WithTotal: false, Order: order(m["desc"] == "1")}
-	as := fracmanager.MustStartAsync(fracmanager.AsyncSearcherConfig{DataDir: filepath.Join(dir, "async"), Parallelism: 2}, mapping{}, fm)
+	parallelism := 2
+	if queued {
+		parallelism = 1 // async-searches-concurrency=1
+	}
+	as := fracmanager.MustStartAsync(fracmanager.AsyncSearcherConfig{DataDir: filepath.Join(dir, "async"), Parallelism: parallelism}, mapping{}, fm)
+	if phase == "build" && queued {
+		p0 := params
+		p0.From, p0.To, p0.AggQ = 0, seq.MID(1<<62), nil
+		if err := as.StartSearch(fracmanager.AsyncSearchRequest{ID: "req0", Query: seq.TokenAll + ":*", Params: p0, Retention: time.Hour}); err != nil {
+			out.Err = "start req0: " + err.Error()
+			emit()
+			return
+		}
+		select {
+		case <-blocked:
+		case <-time.After(3 * time.Second): // no fraction in range: the slot is free, the case is an ordinary one
+		}
+	}
 	if phase == "build" {
 		if err := as.StartSearch(fracmanager.AsyncSearchRequest{ID: "req1", Query: query, Params: params, Retention: time.Hour}); err != nil {
 			out.Err = "start: " + err.Error()
 			emit()
 			return
+		}
+		if queued { // StartSearch returned nil: the search is accepted.  The store dies now, without any graceful stop.
+			out.Err = "crashed"
+			out.Writes = writes
+			emit()
+			os.Exit(7)
 		}
 	}
 	deadline := time.Now().Add(8 * time.Second)
@@ -1160,6 +1193,11 @@ func genSys(g gen, o vh.Opts) []string {
 		if _, err := parser.ParseSeqQL(query, seq.TestMapping); err != nil {
 			query = seq.TokenAll + ":*"
 		}
+		if g.r.Chance(1, 6) { // restart right after the acknowledgement, while the search waits for the only worker slot
+			lines = append(lines, fmt.Sprintf("async docs=%s layout=%s lastActive=%s late=- queued=1 qx=%s desc=%s hi=%d agg=%s from=%d to=%d crash=1 at=written",
+				strings.Join(docs, ","), strings.Join(lay, ";"), b(g.r.Bool()), vh.Hex([]byte(query)), b(g.r.Bool()),
+				[]int{0, 1, 7}[g.r.Intn(3)], []string{"none", "count", "pods"}[g.r.Intn(3)], from, to))
+		}
 		late := "-"
 		if crash > 0 && g.r.Chance(1, 2) {
 			late = fmt.Sprintf("%d,%d,%d", g.r.Intn(len(docs)), g.r.Intn(len(docs)), g.r.Intn(len(docs)))
@@ -1251,8 +1289,11 @@ func runSys(lines []string, orc *vh.Oracle, rep *vh.Report, o vh.Opts) {
 		os.RemoveAll(dir)
 		qfield := strings.SplitN(strings.TrimPrefix(queryOf(m), "not "), ":", 2)[0]
 		orc.Case(line, crashed && k > 1, "crashed="+b(crashed), "agg="+m["agg"], fmt.Sprintf("fracs=%d", k), "hist="+b(m["hi"] != "0"), "dup="+b(hasDupIdx(m["layout"])),
-			"late-fraction="+b(crashed && m["late"] != "" && m["late"] != "-"), "query-field="+qfield, "phrase="+b(strings.Contains(queryOf(m), " ") && strings.Contains(queryOf(m), "\"")))
+			"late-fraction="+b(crashed && m["late"] != "" && m["late"] != "-"), "queued="+b(m["queued"] == "1"), "query-field="+qfield, "phrase="+b(strings.Contains(queryOf(m), " ") && strings.Contains(queryOf(m), "\"")))
 		switch {
+		case out.Err == "not-found" && crashed && m["queued"] == "1":
+			rep.Violate(vh.Violation{Site: "fracmanager/async_searcher.go:StartSearch", Class: "acked-search-lost-after-restart",
+				What: "StartSearch returned nil while the only worker slot was taken (concurrency 1); after a restart the store does not know the search", Replay: []string{line}})
 		case out.Err == "not-found" && crashed && atoi(m["crash"]) == 1 && m["at"] == "before-rename":
 			// killed before the request itself was persisted: it was never acknowledged, nothing to compare
 			orc.Distribution["crash-before-request-persisted"]++
